@@ -105,7 +105,7 @@ def dataset(name):
             for r in range(4):
                 rows.append((L, float(np.round(2e6 * (L / 288.0) ** -5.0 * 10 ** rng.normal(0, 0.12))), True))
     elif name == 'mixed':     # run-outs at 1e7 on three mixed load levels
-        for L, nfrac, nrun in ((448.0, 5, 0), (384.0, 5, 0), (352.0, 4, 1), (320.0, 3, 2), (288.0, 2, 3), (256.0, 0, 4)):
+        for L, nfrac, nrun in ((448.0, 5, 0), (384.0, 5, 0), (352.0, 4, 1), (320.0, 3, 2), (288.0, 2, 3), (256.0, 0, 4), (224.0, 0, 3)):
             for r in range(nfrac):
                 rows.append((L, float(np.round(1.5e6 * (L / 320.0) ** -6.0 * 10 ** rng.normal(0, 0.15))), True))
             for r in range(nrun):
@@ -164,9 +164,18 @@ def _walk(args):
     ls = cs = 0
     perm = list(range(len(base)))
 
+    unit = [1.0]
+    # the finite/infinite transition load of the data set in MPa (the lowest load level with a fracture resp. the estimator's start value)
+    try:
+        t0 = float(base.fatigue_data.finite_infinite_transition)
+    except Exception:
+        t0 = float(base['load'].min())
+    t0 = t0 if t0 > 0 else float(base['load'].min())
+    UNITS = {1: 0.145037738, 2: 0.95 / t0, 3: 1.02 / t0, 4: 0.987654321}
+
     def current():
         df = base.iloc[perm].reset_index(drop=True).copy()
-        df['load'] = df['load'] * 2.0 ** ls
+        df['load'] = df['load'] * 2.0 ** ls * unit[0]
         df['cycles'] = df['cycles'] * 2.0 ** cs
         return df
     try:
@@ -189,6 +198,9 @@ def _walk(args):
                 ls += arg
             elif a == 'ScaleCycles':
                 cs += arg
+            elif a == 'ChangeUnit':
+                dmicro = mlog(UNITS[arg] / unit[0])
+                unit[0] = UNITS[arg]
             elif a == 'Permute':
                 rng.shuffle(perm)
             else:   # Distract: analyse another data set in the same process, with the same analyzer family
@@ -198,8 +210,8 @@ def _walk(args):
                     pass
             rec, gain, raw = analyze(current(), analyzer)
             rec = normal(rec)
-            tr['events'].append({'action': a, 'arg': arg, 'lnL_gain_micro': gain, 'obs': rec})
-            detail.append({'action': [a, arg], 'load_scale': 2.0 ** ls, 'cycle_scale': 2.0 ** cs, 'estimate': raw})
+            tr['events'].append({'action': a, 'arg': arg, 'dmicro': dmicro if a == 'ChangeUnit' else 0, 'lnL_gain_micro': gain, 'obs': rec})
+            detail.append({'action': [a, arg], 'load_scale': 2.0 ** ls * unit[0], 'cycle_scale': 2.0 ** cs, 'estimate': raw})
         tr['nan_scatter_seen'] = nan_seen[0]
         return tr, detail, None
     except Exception as ex:
@@ -260,7 +272,7 @@ def run(chk):
     for ds, ans in ANALYZERS.items():
         mine = [w for w in walks if w[0] == ds]
         # core walks: every action once, the very small load scale, a distraction followed by a permutation
-        core = [(ds, (('ScaleLoads', 20), ('Permute', 0), ('ScaleLoads', -14))), (ds, (('ScaleLoads', 1), ('ScaleCycles', 2), ('Permute', 0))), (ds, (('ScaleLoads', -14), ('Permute', 0), ('ScaleCycles', -1))), (ds, (('Distract', 0), ('Permute', 0), ('ScaleLoads', -2)))]
+        core = [(ds, (('ChangeUnit', 2), ('ChangeUnit', 1), ('ChangeUnit', 3))), (ds, (('ChangeUnit', 4), ('Permute', 0), ('ChangeUnit', 1))), (ds, (('ScaleLoads', 20), ('Permute', 0), ('ScaleLoads', -14))), (ds, (('ScaleLoads', 1), ('ScaleCycles', 2), ('Permute', 0))), (ds, (('ScaleLoads', -14), ('Permute', 0), ('ScaleCycles', -1))), (ds, (('Distract', 0), ('Permute', 0), ('ScaleLoads', -2)))]
         chosen = core + rng.sample(mine, min(per, len(mine)))
         for an in ans:
             for w in chosen:
